@@ -1237,6 +1237,25 @@ def f_reset_var_outside(w, r, g):
             "cite": ["RESET_VARIABLE_REFERENCE" if which == "variable" else "RESET_TEST_VARIABLE_REFERENCE"]}
 
 
+def f_reset_var_parentless(w, r, g):
+    """the reset's (test) variable is an object that is in no component (the validator used to crash here: C09's repair)"""
+    m = w[0]
+    p = ensure_reset(w, r, g)
+    if p is None:
+        return None
+    c, rs = p
+    t = fresh_tag(w)
+    m.ext_vars.append(t)
+    which = r.choice(["variable", "test_variable"])
+    if which == "variable":
+        rs.order = 434343
+        rs.var = t
+    else:
+        rs.tvar = t
+    return {"where": "reset/" + which + "-parent-less/" + rclass(m, c, rs),
+            "cite": ["RESET_VARIABLE_REFERENCE" if which == "variable" else "RESET_TEST_VARIABLE_REFERENCE"]}
+
+
 def f_reset_no_order(w, r, g):
     p = ensure_reset(w, r, g)
     if p is None:
@@ -1554,6 +1573,7 @@ FAULTS = [
     ("variable-name", f_var_name_bad), ("variable-name-duplicate", f_var_name_dup), ("variable-units", f_var_units),
     ("variable-interface", f_var_iface), ("variable-initial-value", f_var_init),
     ("reset-no-variable", f_reset_no_var), ("reset-variable-outside", f_reset_var_outside),
+    ("reset-variable-parentless", f_reset_var_parentless),
     ("reset-no-order", f_reset_no_order), ("reset-order-duplicate", f_reset_order_dup), ("reset-no-value", f_reset_no_value),
     ("math-root", f_math_root), ("math-unsupported-element", f_math_unsupported), ("math-ci-unknown", f_math_ci_unknown),
     ("math-ci-empty", f_math_ci_empty), ("math-cn-units", f_math_cn_units), ("math-cn-base", f_math_cn_base),
